@@ -197,15 +197,20 @@ def _match_known(o, known):
     """a failed obligation is a known finding only if its id matches and EVERY reported failure matches the finding's
     signature, so a second, different failure of the same obligation is still a violation"""
     import re
+    detail = o.detail or ""
+    if detail.lstrip().startswith("error"):
+        items = [b for b in detail.split("\n\n") if b.strip()]      # verus: one diagnostic block per failure
+    else:
+        items = [l for l in detail.split("\n") if l.strip()]         # kani: one failed check per line
     for f in known.values():
-        m = f.get("match")
-        if not m:
+        ms = f.get("match")
+        if not ms:
             continue
-        if not re.search(m["obligation"], o.oid):
-            continue
-        lines = [l for l in (o.detail or "").split("\n") if l.strip()]
-        if lines and all(re.search(m["detail"], l) for l in lines):
-            return f
+        for m in (ms if isinstance(ms, list) else [ms]):
+            if not re.search(m["obligation"], o.oid):
+                continue
+            if items and all(re.search(m["detail"], it) for it in items):
+                return f
     return None
 
 
